@@ -43,4 +43,9 @@ def ordering_key(x):
     [0, 2, 'a']
 
     """
+    if isinstance(x, frozenset):
+        # ``<`` on frozensets is the subset relation, which is only a partial
+        # order; sorting by it does not give a canonical key order. Order
+        # frozenset labels by their sorted elements instead.
+        return str(type(x)), tuple(sorted(map(ordering_key, x)))
     return str(type(x)), x
